@@ -141,13 +141,11 @@ pub unsafe fn set_external_session_globals(ptr: *const std::ffi::c_void) {
 // sync operation, a preemptive OS does).
 #[cfg(mimium_rs_verif_shuttle)]
 shuttle::lazy_static! {
-    static ref VERIF_SESSION_GLOBALS: shuttle::sync::Mutex<SessionGlobals> =
-        shuttle::sync::Mutex::new(SessionGlobals {
-            symbol_interner: StringInterner::new(),
-            expr_storage: SlotMap::with_key(),
-            type_storage: SlotMap::with_key(),
-            loc_storage: BTreeMap::new(),
-        });
+    // Scheduling token: shuttle re-creates its lazy statics for every explored schedule, but the
+    // interner of a real process lives as long as the process (process-wide caches may hold
+    // interned ids), so the storage itself stays in the ordinary `SESSION_GLOBALS` and is only
+    // touched while the token is held (it is therefore never contended at the OS level).
+    static ref VERIF_SESSION_TOKEN: shuttle::sync::Mutex<()> = shuttle::sync::Mutex::new(());
 }
 #[cfg(mimium_rs_verif_shuttle)]
 pub fn with_session_globals<R, F>(f: F) -> R
@@ -155,7 +153,10 @@ where
     F: FnOnce(&mut SessionGlobals) -> R,
 {
     let r = {
-        let mut guard = VERIF_SESSION_GLOBALS
+        let _token = VERIF_SESSION_TOKEN
+            .lock()
+            .unwrap_or_else(|e| e.into_inner());
+        let mut guard = SESSION_GLOBALS
             .lock()
             .unwrap_or_else(|_| panic!("Failed to acquire lock on SESSION_GLOBALS"));
         f(&mut guard)
